@@ -35,6 +35,8 @@ type Service struct {
 	Gate func(svc *Service, n int, in *graphql.QueryInput)
 	// Done, when set, is called when Query returns
 	Done func()
+	// DoneIn is like Done but receives the input
+	DoneIn func(in *graphql.QueryInput)
 	// Effects counts executions of mutation root fields
 	Effects map[string]int
 }
@@ -61,6 +63,9 @@ func (s *Service) Query(ctx context.Context, in *graphql.QueryInput, recv interf
 	}
 	if s.Done != nil {
 		defer s.Done()
+	}
+	if s.DoneIn != nil {
+		defer s.DoneIn(in)
 	}
 	doc, errs := gqlparser.LoadQuery(s.Schema, in.Query)
 	if errs != nil {
